@@ -315,8 +315,10 @@ Variable sepc : ascii.
   (fun s _ =>
      do s1 <- pop (set_clevel (pred (clevel s)) s);
      if clevel s1 <? 1 then
-       cont (set_seek_cop true (set_copr CNone (set_sid ""
-              (set_segs (segs s1 ++ [(stype s1, ACollector (copr s1) (sid s1))])%list s1))))
+       (* since the fix of F25 segment_type is reset with the collector stored:
+          text glued to the parenthesis ("(a)b") starts a segment of its own *)
+       cont (set_seek_cop true (set_copr CNone (set_stype None (set_sid ""
+              (set_segs (segs s1 ++ [(stype s1, ACollector (copr s1) (sid s1))])%list s1)))))
      else fall s1).
 
 (* 13 *) Definition r_open_bracket := mkrule
